@@ -340,6 +340,11 @@ impl Array4 {
                 })?;
                 let slot = get_slot(coupon) & ((1 << lg_config_k) - 1);
                 let value = get_value(coupon);
+                if aux.get(slot).is_some() {
+                    return Err(Error::deserial(format!(
+                        "duplicate aux map entry for slot {slot}"
+                    )));
+                }
                 aux.insert(slot, value);
             }
             aux_map = Some(aux);
